@@ -106,7 +106,7 @@ def items(tier: str) -> List[Any]:
                     seen.add(s)
                     out.append(("sound", s, None, None))
     # loops that really iterate (counter conditions): accepting runs take back edges
-    for s in spaces.counted_loops(small[:3], tier, max_size=2 if tier == "quick" else 3):
+    for s in spaces.counted_loops(small[:3], tier, max_size=2):
         if s not in seen:
             seen.add(s)
             out.append(("sound", s, None, None))
